@@ -247,7 +247,7 @@ def run(ck, m):
             same = False
             t = cb.term(s)
             for a in t['args']:
-                for r in origins(cb, a, stop_at_calls=True):
+                for r in origins(cb, a, stop_at_calls=True) | origins(cb, a):
                     if r[0] == 'call' and r[1] in regs:
                         same = True
             ck.ob('C14.d', short(cb.id), 'register-before-send', ok and same,
